@@ -276,8 +276,15 @@ def m1_mutations(src, which):
     """truncation at every point, every 32-bit length/count field replaced by boundary values, varint
     fields replaced by hostile varints, single-byte mutations: decoding terminates and fails cleanly"""
     data = bytearray(BUFFERS[which])
-    kind = src.choice("mutation", 4)
-    if kind == 0:
+    kind = src.choice("mutation", 5)
+    if kind == 4:
+        # junk behind the batch and a negative Length field (not covered by the checksum) that makes the
+        # splitter's slice end at a negative index
+        g = [1, 4, 18][src.choice("junk_bytes", 3)]
+        data = data + bytes(range(1, 2 * g + 1))
+        struct.pack_into(">i", data, 8, -12 - g)
+        desc = f"{2 * g} junk bytes appended, Length = {-12 - g}"
+    elif kind == 0:
         cut = src.choice("truncate_at", len(data) + 1)
         data = data[:cut]
         desc = f"truncated at {cut}"
@@ -315,15 +322,19 @@ def m1_mutations(src, which):
         if changed:
             src.check(not all(LAST_CRCS) or not LAST_CRCS,
                       f"a batch whose content no longer matches its checksum was reported valid ({which}: {desc})", changed_bytes=changed[:6])
+    if kind == 4 and which.startswith("v2") and outcome != "runaway":
+        # whatever else happens to this buffer, a batch whose Length field is negative is not a valid batch
+        src.check(not any(LAST_CRCS), f"a batch with a negative Length field (and junk behind it) passed the checksum validation ({which}: {desc})",
+                  verdicts=list(LAST_CRCS))
     src.check(outcome != "runaway", f"decoding does not terminate ({which}: {desc})", buffer=which, mutation=desc)
     ok = not outcome.startswith("internal")
     if src.twin and kind == 0:
         ok = False
     src.check(ok, f"decoder raised an internal error instead of an ordinary exception: {outcome}", buffer=which, mutation=desc)
-    _compiled_outcome(src, bytes(data), which, desc)
+    _compiled_outcome(src, bytes(data), which, desc, py_crcs=list(LAST_CRCS) if outcome != "runaway" else None)
 
 
-def _compiled_outcome(src, data, which, desc):
+def _compiled_outcome(src, data, which, desc, py_crcs=None):
     """witness replay against the compiled decoders (watchdog subprocess): refutes, never confirms;
     an out-of-bounds read that happens to return garbage is invisible to it"""
     if not CX.available():
@@ -335,6 +346,12 @@ def _compiled_outcome(src, data, which, desc):
         src.check(r["exc"] not in ("SystemError", "MemoryError", "RecursionError", "RuntimeError"),
                   f"compiled decoder raised {r['exc']} instead of an ordinary exception ({which}: {desc})",
                   buffer=which, mutation=desc, detail=r.get("msg"))
+    if py_crcs is not None:
+        # a batch whose checksum both decoders got to verify must get the same verdict from both
+        cc = [bool(b["crc"]) for b in r["batches"]] if "batches" in r else [bool(x) for x in r.get("crcs_before", [])]
+        k = min(len(cc), len(py_crcs))
+        src.check(cc[:k] == list(py_crcs)[:k], f"the two implementations disagree on the validity of a batch's checksum ({which}: {desc})",
+                  pure_python=list(py_crcs), compiled=cc, buffer=which, mutation=desc)
 
 
 def m2_hostile_inner_lengths(src, magic, ninner):
